@@ -68,6 +68,69 @@ func routeTable(w *World, tb *TB) ([]route, *ssa.Function) {
 			break
 		}
 	}
+	if len(out) == 0 {
+		// table form: the router looks the path up in a package-level map literal path → handler constructor and
+		// calls what it finds: newHandler, ok := routes[path]; …; newHandler()(ctx)
+		var table *ssa.Global
+		EachInstr(rf, func(in ssa.Instruction) {
+			lk, ok := in.(*ssa.Lookup)
+			if !ok {
+				return
+			}
+			if ld, ok := lk.X.(*ssa.UnOp); ok {
+				if g, ok := ld.X.(*ssa.Global); ok && g.Pkg != nil && g.Pkg.Pkg.Path() == ApiPath {
+					table = g
+				}
+			}
+		})
+		if table != nil {
+			for _, f := range w.ModuleFuncs(ApiPath) {
+				if !isInit(f) {
+					continue
+				}
+				EachInstr(f, func(in ssa.Instruction) {
+					mu, ok := in.(*ssa.MapUpdate)
+					if !ok {
+						return
+					}
+					k, ok := mu.Key.(*ssa.Const)
+					if !ok || k.Value == nil || k.Value.Kind() != constant.String {
+						return
+					}
+					// only updates of the map that initialises the table
+					stored := false
+					if refs := mu.Map.Referrers(); refs != nil {
+						for _, r := range *refs {
+							if st, ok := r.(*ssa.Store); ok && st.Addr == ssa.Value(table) && st.Val == mu.Map {
+								stored = true
+							}
+						}
+					}
+					if !stored {
+						return
+					}
+					v := mu.Value
+					if ct, ok := v.(*ssa.ChangeType); ok {
+						v = ct.X
+					}
+					fct, ok := v.(*ssa.Function)
+					if !ok || fnPkgPath(fct) != ApiPath {
+						return
+					}
+					r := route{path: constant.StringVal(k.Value), factory: fct, pos: w.InstrPos(in)}
+					if res := tb.Results(fct, nil, nil, 0); len(res) == 1 {
+						switch hv := res[0].Val.(type) {
+						case *ssa.MakeClosure:
+							r.handler = hv.Fn.(*ssa.Function)
+						case *ssa.Function:
+							r.handler = hv
+						}
+					}
+					out = append(out, r)
+				})
+			}
+		}
+	}
 	sort.Slice(out, func(i, j int) bool { return out[i].path < out[j].path })
 	return out, rf
 }
@@ -258,6 +321,18 @@ func suiteSpecs() []fieldSpec {
 func rulePrechecks(c *Check, w *World, tb *TB, rule string, h *ssa.Function, needSecret bool) {
 	fn := FuncName(h)
 	isLib := func(t *Term) bool {
+		if t.Op == "calldyn" && len(t.Args) > 0 {
+			// a call through a variable holding library operations only
+			all := false
+			for _, a := range t.Args[0].Alts() {
+				fv, ok := a.Val.(*ssa.Function)
+				if a.Op != "fn" || !ok || fnPkgPath(fv) != OtpPath {
+					return false
+				}
+				all = true
+			}
+			return all
+		}
 		if t.Op != "call" {
 			return false
 		}
@@ -463,10 +538,29 @@ func restRules(c *Check, w *World, tb *TB, ef *Effects, pfx string, only []strin
 		out := map[string][]Hit{}
 		for _, hit := range tb.Reach(h, func(ci ssa.CallInstruction) bool {
 			f := ci.Common().StaticCallee()
-			return f != nil && fnPkgPath(f) == OtpPath
+			if f != nil {
+				return fnPkgPath(f) == OtpPath
+			}
+			// a call through a variable that holds one of several library operations (gen := otp.GenerateTOTPURL …)
+			return !ci.Common().IsInvoke()
 		}, 1) {
-			n := hit.Call.Common().StaticCallee().Name()
-			out[n] = append(out[n], hit)
+			if f := hit.Call.Common().StaticCallee(); f != nil {
+				out[f.Name()] = append(out[f.Name()], hit)
+				continue
+			}
+			ft := tb.Val(hit.Call.Common().Value, hit.Env)
+			var names []string
+			for _, a := range ft.Alts() {
+				fv, ok := a.Val.(*ssa.Function)
+				if a.Op != "fn" || !ok || fnPkgPath(fv) != OtpPath {
+					names = nil
+					break
+				}
+				names = append(names, fv.Name())
+			}
+			for _, n := range names {
+				out[n] = append(out[n], hit)
+			}
 		}
 		return out
 	}
